@@ -1586,6 +1586,18 @@ func (c *Ctx) execConvert(fr *Frame, st *State, x *ssa.Convert) bool {
 		return true
 	}
 	if res, ok := c.convert(xv.S, from, to); ok {
+		// `conversions lossless`: a narrowing integer conversion must not change the value
+		if fr.top && fr.contract != nil && len(fr.contract.byKind("conversions")) > 0 && c.mode == INT {
+			fb, _, fi := isIntType(from)
+			tb, ts, ti := isIntType(to)
+			if fi && ti && tb < fb {
+				if _, isConst := x.X.(*ssa.Const); !isConst {
+					fr.callSeq["lossless"]++
+					o := c.oblige("lossless", fmt.Sprintf("lossless#%d:%s", fr.callSeq["lossless"], to.String()), st.reach, c.sorts.rangePred(xv.S, tb, ts), c.pos(x.Pos()))
+					o.Desc = fmt.Sprintf("narrowing conversion %s -> %s keeps the value (no silent truncation)", from, to)
+				}
+			}
+		}
 		c.bind(fr, x, to, res)
 		return true
 	}
